@@ -26,7 +26,8 @@ fn run_seq(out: &mut Out, sid: u64, seq: &[(String, String)]) {
     let mut v = 0u32;
     out.ev(sid, "Reset", json!({}));
     for (op, name) in seq {
-        let value = format!("v{v}");
+        // (in every other scenario values repeat: two fields may be identical in name, case and value, and are still two fields)
+        let value = if sid % 2 == 1 { format!("v{}", v % 2) } else { format!("v{v}") };
         let ret: Result<Value, ()> = catch(|| match op.as_str() {
             "add" => {
                 h.add(name, value.clone().try_into().unwrap());
